@@ -470,9 +470,10 @@ pub fn isolation(out: &mut Out, kind: &str, seed: u64, histories: usize, len: us
     let mut rng = Rng(seed ^ 0xC15C);
     let mut n = 0u64;
     let width = if kind == "cc" { 3 } else { 6 };
-    for _ in 0..histories {
-        out.req(&format!("{} new 1", kind));
-        for c in 0..16 { out.req(&format!("{} new {}", kind, 10 + c)); }
+    for h in 0..histories {
+        // the shared scanner and the scanners of their own come from `new()` or `default()` in all four combinations
+        out.req(&format!("{} {} 1", kind, if h % 2 == 0 { "new" } else { "default" }));
+        for c in 0..16 { out.req(&format!("{} {} {}", kind, if h % 4 < 2 { "new" } else { "default" }, 10 + c)); }
         let mut ok = true;
         let mut hist = String::new();
         for _ in 0..len {
